@@ -108,6 +108,11 @@ class FitProperties(dict):
         elif key not in FP_RESULTS:
             msg = "Key '{}' not in FP_DEFAULT".format(key)
             raise FitKeyError(msg)
+        if key in FP_DEFAULT:
+            # Store settings by value: in-place edits of the caller's
+            # object must neither change the stored settings nor go
+            # unnoticed when the object is assigned again.
+            value = copy.deepcopy(value)
         super(FitProperties, self).__setitem__(key, value)
 
     def reset(self):
